@@ -109,6 +109,13 @@ class RunTest:
                 # One or more caught exceptions, now trigger the test's
                 # reporting method for just one.
                 e = self._exceptions.pop()
+                # An exception that no handler claims (KeyboardInterrupt,
+                # SystemExit, ...) must propagate whatever a later stage
+                # raised, so it takes precedence over the last one.
+                for caught in self._exceptions:
+                    if not any(isinstance(caught, c) for c, _ in self.handlers):
+                        e = caught
+                        break
                 for exc_class, handler in self.handlers:
                     if isinstance(e, exc_class):
                         handler(self.case, self.result, e)
